@@ -896,9 +896,9 @@ func init() {
 	})
 	register(&propDef{
 		ID:          "C18",
-		Explanation: "Decides: (LOOP) every loop reachable from $formatNumber/$formatBase/$round/$number/$string has a recognised variant — in particular FormatNumber's mantissa scaling loop multiplies a value that is provably positive on entry (math.Abs of a value tested non-zero), the clause whose absence made $formatNumber(0, \"0.0e0\") hang; (FIN) $power, $sqrt and $round cannot return ±Inf or NaN (two-sided IsInf/IsNaN guards dominate the returns; Sqrt's argument is tested non-negative); (GUARD) FormatBase's radix test admits exactly [2,36], strconv.FormatInt's domain, and dominates the call; strings.Repeat counts in the picture renderer are non-negative; (W) the number functions are functions of their arguments: nothing under $formatNumber/$formatBase/$round/$number/$power/$sqrt writes pre-existing memory or keeps a process-wide cache (e.g. of analysed pictures). NOT decided: rounding, shortest form, picture rendering as values. (VALIDALL) every success return of the picture processor lies behind the validation or the emptiness test of each sub-picture; (NUMGATE) strconv.ParseFloat in $number is gated by a package-level regular expression whose language, checked on a battery written from the property's grammar, is the number grammar; (F2I) $formatBase converts rounded values only.",
+		Explanation: "Decides: (LOOP) every loop reachable from $formatNumber/$formatBase/$round/$number/$string has a recognised variant — in particular FormatNumber's mantissa scaling loop multiplies a value that is provably positive on entry (math.Abs of a value tested non-zero), the clause whose absence made $formatNumber(0, \"0.0e0\") hang; (FIN) $power, $sqrt and $round cannot return ±Inf or NaN (two-sided IsInf/IsNaN guards dominate the returns; Sqrt's argument is tested non-negative); (GUARD) FormatBase's radix test admits exactly [2,36], strconv.FormatInt's domain, and dominates the call; strings.Repeat counts in the picture renderer are non-negative; (W) the number functions are functions of their arguments: nothing under $formatNumber/$formatBase/$round/$number/$power/$sqrt writes pre-existing memory or keeps a process-wide cache (e.g. of analysed pictures). NOT decided: rounding, shortest form, picture rendering as values. (VALIDALL) every success return of the picture processor lies behind the validation or the emptiness test of each sub-picture; (NUMGATE) strconv.ParseFloat in $number is gated by a package-level regular expression whose language, checked on a battery written from the property's grammar, is the number grammar; (F2I) $formatBase converts rounded values only. (HALFADD) no math.Floor(v + 0.5) / math.Ceil(v - 0.5) / math.Trunc(v ± 0.5) under the number functions: adding one half first is not rounding to nearest (0.49999999999999994 + 0.5 is exactly 1).",
 		Rule:        commonRule,
-		Fixtures:    []string{"fin", "guard", "loop", "w"},
+		Fixtures:    []string{"fin", "guard", "loop", "w", "shape"},
 		Run: func(c *Ctx, r *Result) {
 			var roots []*ssa.Function
 			for _, n := range []string{"jlib.FormatNumber", "jlib.FormatBase", "jlib.Round", "jlib.Number", "jlib.String", "jlib.Power", "jlib.Sqrt", "jsonata.round"} {
